@@ -8,7 +8,9 @@ operation all materialised pages of all chips are compared.
 """
 import struct as pystruct
 
+from rigsim import wire
 from rigsim.machine import Memory, SV_BASE, VCPU_SIZE, sark_structs
+from rigsim.seams import rig_module
 from .common import Ctl, rigcall, MC_MODULES, BUFFERS, TIMEOUTS
 
 RIG_MODULES = MC_MODULES
@@ -250,28 +252,61 @@ class MemEngine(object):
                 vals.append(int.from_bytes(chunk[:unit], "little"))
         return vals[0] if f.length == 1 else tuple(vals)
 
+    def own_struct_text(self):
+        """A struct of the caller's own, appended to the bundled definitions:
+        every pack code the file format has (signed and unsigned bytes, half
+        words, words, fixed-size strings), arrays, gaps between fields."""
+        t = self.t
+        lines = ["", "name = cfg", "size = 256",
+                 "base = %#x" % (0x60003000 + 4 * t.draw(64)), ""]
+        off = 0
+        for i in range(2 + t.draw(6)):
+            code, unit = [("C", 1), ("c", 1), ("v", 2), ("V", 4),
+                          ("A%d" % [1, 3, 8, 16, 21][t.draw(5)], 0)][t.draw(5)]
+            if unit == 0:
+                unit = int(code[1:])
+                count = 1
+            else:
+                count = [1, 1, 2, 5][t.draw(4)]
+                off = (off + unit - 1) // unit * unit
+            off += [0, 0, 1, 4][t.draw(4)] * (unit if unit in (1, 2, 4)
+                                              else 1)
+            if off + unit * count > 200:
+                break
+            fname = "f%d" % i + ("[%d]" % count if count > 1 else "")
+            lines.append("%-12s %-4s %#06x  %%d  0" % (fname, code, off))
+            off += unit * count
+        return ("\n".join(lines) + "\n").encode()
+
     def op_struct(self, write):
         t = self.t
         self.w.probe("struct_field")
         xy = self.pick_chip()
-        fields = self._fields("sv")
+        sname, base = "sv", SV_BASE
+        if self.own is not None and t.draw(2):
+            sname, base = "cfg", self.own["base"]
+            self.w.probe("own_struct_field")
+            fields = list(self.own["fields"].values())
+        else:
+            fields = self._fields("sv")
         f = fields[t.draw(len(fields))]
         if f.name.startswith("__PAD"):
             f = fields[0]
         p = 0 if t.draw(3) else t.draw(len(self.m.chips[xy].cores))
-        addr = SV_BASE + f.offset
+        addr = base + f.offset
         n = f.size * f.length
         mc = self.c.mc
         if write:
             raw = t.bytes(n)
             vals = self._unpack(f, raw)
-            name = "write_struct_field(sv.%s,%r,p=%d)" % (f.name, xy, p)
-            self.run_op(name, (xy, p, addr, raw), mc.write_struct_field, "sv",
-                        f.name, vals, xy[0], xy[1], p)
+            name = "write_struct_field(%s.%s,%r,p=%d)" % (sname, f.name, xy,
+                                                          p)
+            self.run_op(name, (xy, p, addr, raw), mc.write_struct_field,
+                        sname, f.name, vals, xy[0], xy[1], p)
         else:
             exp = self._unpack(f, self.shadow[xy].read(addr, n, p))
-            name = "read_struct_field(sv.%s,%r,p=%d)" % (f.name, xy, p)
-            st, val = self.run_op(name, None, mc.read_struct_field, "sv",
+            name = "read_struct_field(%s.%s,%r,p=%d)" % (sname, f.name, xy, p)
+            st, val = self.run_op(name, None, mc.read_struct_field, sname,
                                   f.name, xy[0], xy[1], p)
             if st == "ok" and val != exp:
                 self.w.violate("RD", "%s returned %r, memory holds %r"
@@ -368,9 +403,21 @@ class MemEngine(object):
         if t.draw(3) == 0:
             m.vary_layout()
             w.probe("per_chip_layout")
+        # one run in three: the controller is given the caller's own struct
+        # definitions (the bundled file plus one more struct)
+        self.own = None
+        mc_kw = {}
+        if t.draw(3) == 0:
+            import os
+            with open(os.path.join(os.environ.get("VERIF_REPO", "/repo"),
+                                   "rig", "boot", "sark.struct"), "rb") as f:
+                text = f.read() + self.own_struct_text()
+            mc_kw["structs"] = rig_module(
+                "rig.machine_control.struct_file").read_struct_file(text)
+            self.own = wire.parse_struct_file(text)["cfg"]
+            w.probe("own_struct_definitions")
         try:
-            mc = c.start(materialise=True)
-            from rigsim.seams import rig_module
+            mc = c.start(materialise=True, **mc_kw)
             self.Links = rig_module("rig.links").Links
             if window is not None:
                 mc._window_size = window
